@@ -11,14 +11,14 @@
    Full statement that is refuted (kept for the record):
      forall G FP grammar_of imported pg_of create_table files h,
        reads_only_imported G grammar_of imported -> creates_wf G FP pg_of create_table ->
-       run .. (mkFS files None) h = spec_run .. (mkFS files None) h.                   *)
+       run_hist .. (mkFS files None) h = spec_hist .. (mkFS files None) h.                   *)
 From Coq Require Import NArith List Bool.
 From PV Require Import Model.Persist Model.Cache Proofs.PersistProofs Proofs.CacheProofs.
 Import ListNotations.
 Local Open Scope N_scope.
 
 (* Saving a table and loading it back, for EVERY grammar and EVERY table that is a
-   well-formed LRTable of that grammar (table_wfb is also run on the impl's real
+   well-formed LRTable of that grammar (table_wfb is also run_hist on the impl's real
    tables by the check): the load succeeds and gives the same actions, gotos, finish
    flags, the same recomputed conflicts and dynamic marks, and saving again gives
    the same JSON value (hence, json.dump(sort_keys=True) being a function of the
@@ -72,8 +72,8 @@ Theorem C12_cache_transparent_partial :
     forall (fp : FP) (files : list (path * (N * N))) (t : N) (h : list (N * op FP)),
       (forall f mv, In (f, mv) files -> fst mv <= t) ->
       disciplined FP fp t h ->
-      run G FP grammar_of imported pg_of create_table (mkFS files None) h
-      = spec_run G FP grammar_of pg_of create_table (mkFS files None) h.
+      run_hist G FP grammar_of imported pg_of create_table (mkFS files None) h
+      = spec_hist G FP grammar_of pg_of create_table (mkFS files None) h.
 Proof. exact cache_transparent. Qed.
 Print Assumptions C12_cache_transparent_partial.
 
@@ -88,11 +88,11 @@ Theorem C12_options_refuted :
          (h1 h2 : list (N * op FP)),
     reads_only_imported G grammar_of imported /\ creates_wf G FP pg_of create_table /\
     clocked 0 h1 /\ clocked 0 h2 /\
-    run G FP grammar_of imported pg_of create_table (mkFS files None) h1
-    <> spec_run G FP grammar_of pg_of create_table (mkFS files None) h1 /\
-    run G FP grammar_of imported pg_of create_table (mkFS files None) h2
+    run_hist G FP grammar_of imported pg_of create_table (mkFS files None) h1
+    <> spec_hist G FP grammar_of pg_of create_table (mkFS files None) h1 /\
+    run_hist G FP grammar_of imported pg_of create_table (mkFS files None) h2
     = [Ok tbl_glr; Raise ESRConflicts] /\
-    spec_run G FP grammar_of pg_of create_table (mkFS files None) h2
+    spec_hist G FP grammar_of pg_of create_table (mkFS files None) h2
     = [Ok tbl_glr; Ok tbl_lr].
 Proof. exact options_refuted_full. Qed.
 Print Assumptions C12_options_refuted.
